@@ -111,6 +111,16 @@ def chains(tier, rng):
             progs.append(Program(src, sc, 'string', 'aggr', chain={'distinct': False, 'final': ('aggr', name)}))
         progs.append(Program(src, sc, 'string', 'distinct', chain={'distinct': True, 'final': ('list',)}))
         progs.append(Program(src, sc, 'string', 'without_distinct', chain={'distinct': False, 'final': ('aggr', 'COUNT')}))
+    # group_concat with separators (including the empty one) on a bag of strings
+    for sep in (None, '', '-', ', '):
+        progs.append(Program('(p.s for p in P)', {}, 'string', 'group_concat', chain={'distinct': False, 'final': ('aggr', 'GROUP_CONCAT', sep)}))
+        progs.append(Program('(p.s for p in P if p.a > x)', X, 'string', 'group_concat', chain={'distinct': False, 'final': ('aggr', 'GROUP_CONCAT', sep)}))
+    # ordering by attribute objects, desc() mixed with ascending keys (keys given as attributes, not lambdas)
+    for attrs in ([('a', True), ('b', False), ('id', False)], [('a', False), ('b', True), ('id', True)], [('s', True), ('id', False)], [('b', True), ('a', True), ('id', False)]):
+        keys = [('p.' + a, d) for a, d in attrs]
+        for fin in (('list',), ('slice', 0, 2), ('slice', 1, 3), ('first',)):
+            progs.append(Program('(p for p in P)', {}, 'string', 'order-attrs', chain={'order': keys, 'order_attrs': attrs, 'order_entity': 'P', 'final': fin}))
+            progs.append(Program('(p for p in P if p.a > x)', X, 'string', 'order-attrs', chain={'order': keys, 'order_attrs': attrs, 'order_entity': 'P', 'final': fin}))
     # ordering by result column numbers (projections): must only permute the unordered result
     for src in ['(p.a for p in P)', '(p.s for p in P)', '((p.a, p.b) for p in P)', '(p.id for p in P)']:
         for nums in ([1], [-1]):
